@@ -1,5 +1,6 @@
 import DoraModel.Bytecode.Writer
 import DoraModel.Bytecode.Bincode
+import DoraModel.Gen.PkgTypes
 open Dora.Bytecode
 
 /-! Line-protocol driver for C18. Requests (one per line):
@@ -199,12 +200,54 @@ def respond (line : String) : String :=
   | ["bin", ty, h] => Dora.Bincode.respond ty (unHex h) toHex
   | _ => "!badreq"
 
-partial def loop (h : IO.FS.Stream) (out : IO.FS.Stream) : IO Unit := do
+/-- FNV-1a 64 over bytes -/
+def fnvBytes (bs : List UInt8) : UInt64 :=
+  bs.foldl (fun h b => (h ^^^ b.toUInt64) * 0x100000001b3) 0xcbf29ce484222325
+
+/-- decode a package with the generated type table, re-encode it -/
+def respondPkg (bs : List UInt8) (withSame : Bool) : String :=
+  let fuel := (bs.length + 2) * (Dora.Bincode.pkgEnv.size + 1)
+  match Dora.Bincode.decodeAll Dora.Bincode.pkgEnv Dora.Bincode.pkgRoot bs with
+  | none => "err"
+  | some v =>
+    let again := Dora.Bincode.encT Dora.Bincode.pkgEnv fuel Dora.Bincode.pkgRoot v
+    let wf := Dora.Bincode.wfT Dora.Bincode.pkgEnv fuel Dora.Bincode.pkgRoot v
+    let r := s!"ok {(fnvBytes again).toNat}:{again.length} wf={wf}"
+    if withSame then s!"{r} same={again == bs}" else r
+
+def mutate (bs : Array UInt8) (kind : String) (pos bit : Nat) : Option (List UInt8) :=
+  match kind with
+  | "trunc" => if pos ≤ bs.size then some (bs.toList.take pos) else none
+  | "flip" => if pos < bs.size ∧ bit < 8 then
+      some (bs.setIfInBounds pos (bs[pos]! ^^^ (1 <<< bit.toUInt8))).toList else none
+  | _ => none
+
+partial def loop (h : IO.FS.Stream) (out : IO.FS.Stream) (cache : String × ByteArray) : IO Unit := do
   let line ← h.getLine
   if line.isEmpty then return ()
-  if line.trimAscii.toString.isEmpty then loop h out else
-  out.putStrLn (respond line)
-  loop h out
+  let l := line.trimAscii.toString
+  if l.isEmpty then loop h out cache else
+  match l.splitOn " " with
+  | "pkg" :: file :: rest =>
+    let cache ← if cache.1 == file then pure cache else do
+      let b ← IO.FS.readBinFile file
+      pure (file, b)
+    let bytes : Array UInt8 := cache.2.data
+    match rest with
+    | [] => out.putStrLn (respondPkg bytes.toList true)
+    | [kind, pos, bit] =>
+      match pos.toNat?, bit.toNat? with
+      | some p, some b =>
+        match mutate bytes kind p b with
+        | some m => out.putStrLn (respondPkg m false)
+        | none => out.putStrLn "!badreq"
+      | _, _ => out.putStrLn "!badreq"
+    | _ => out.putStrLn "!badreq"
+    out.flush
+    loop h out cache
+  | _ =>
+    out.putStrLn (respond line)
+    loop h out cache
 
 def main : IO Unit := do
-  loop (← IO.getStdin) (← IO.getStdout)
+  loop (← IO.getStdin) (← IO.getStdout) ("", ByteArray.empty)
